@@ -29,6 +29,10 @@ def _load_known():
 
 def _worker(job):
     from symx import runner
+    marker = os.environ.get("SYMX_TEST_KILL_ONCE")      # self-test of the lost-worker handling
+    if marker and not os.path.exists(marker):
+        open(marker, "w").close()
+        os._exit(9)
     return runner.run_job(job)
 
 
@@ -100,20 +104,38 @@ def main(argv=None):
     # heavy jobs first
     jobs.sort(key=lambda j: -j.get("weight", 1))
     results = []
-    workers = max(1, min(args.workers, len(jobs)))
-    ctxm = mp.get_context("spawn")
-    with cf.ProcessPoolExecutor(max_workers=workers, mp_context=ctxm) as ex:
-        futs = {ex.submit(_worker, j): j for j in jobs}
-        for fu in cf.as_completed(futs):
-            j = futs[fu]
-            try:
-                results.append(fu.result())
-            except Exception as e:      # noqa: BLE001
+    pending = list(jobs)
+    # a worker process that dies (out of memory, killed from outside) breaks the whole pool: the jobs that were
+    # lost are run again in a fresh, smaller pool (twice at most) before they count as inconclusive
+    for attempt in range(3):
+        workers = max(1, min(args.workers if attempt == 0 else max(2, args.workers // 4), len(pending)))
+        ctxm = mp.get_context("spawn")
+        lost = []
+        with cf.ProcessPoolExecutor(max_workers=workers, mp_context=ctxm) as ex:
+            futs = {}
+            for j in pending:
+                try:
+                    futs[ex.submit(_worker, j)] = j
+                except Exception as e:      # noqa: BLE001  (pool already broken while submitting)
+                    lost.append((j, e))
+            for fu in cf.as_completed(futs):
+                j = futs[fu]
+                try:
+                    results.append(fu.result())
+                except Exception as e:      # noqa: BLE001
+                    lost.append((j, e))
+        if not lost:
+            break
+        if attempt == 2:
+            for j, e in lost:
                 results.append(dict(paths=0, violations=[], inconclusive=["worker died: %r" % (e,)],
                                     mismatches=[], validated=0, samples=[], reach=[], stats={},
                                     exhausted=False, functions=[], rewrites={},
                                     job=dict(harness=hname, func=j["func"], params=j.get("params")),
                                     wall_s=0))
+        else:
+            print("note: %d job(s) lost with a dead worker (%r), running them again" % (len(lost), lost[0][1]))
+            pending = [j for j, e in lost]
     wall = time.time() - t0
 
     known = [k for k in _load_known() if k.get("property") == pid]
